@@ -37,6 +37,12 @@ func limitsFor(input string) comp.Limits {
 // preceded by a line marker that repeats the input path, so the only sound bound on the
 // output is 10^4 lines of (path + step) length per input byte.
 func maxOutput(input string, o *comp.Options) int {
+	if !strings.Contains(input, "*") {
+		// without a multiplier nothing in the language repeats text: every output line
+		// (plus its line marker) stems from its own piece of input
+		// (a constant may hold a few thousand characters and be used every few bytes)
+		return 64 * (len(o.Path) + 64) * (len(input) + 256)
+	}
 	return 10000 * (len(o.Path) + 64) * (len(input) + 256)
 }
 
@@ -618,6 +624,17 @@ func (fr *faultRun) exec() {
 			"script S { switch (var(A)) { case " + n1 + ": case " + n2 + ": case -" + n2 + ": x } }",
 			"script S { if (var(A) > value(" + n1 + " * (" + n2 + " + (1)))) { x } }",
 		}[fr2.Intn(16)]
+		if fr2.P(0.15) {
+			// a chain of constants each defined as two copies of the previous one
+			depth := fr2.Range(8, 24)
+			var sb strings.Builder
+			sb.WriteString("const A0 = x x\n")
+			for i := 1; i <= depth; i++ {
+				fmt.Fprintf(&sb, "const A%d = A%d A%d\n", i, i-1, i-1)
+			}
+			fmt.Fprintf(&sb, "script S { y(A%d) }\n", depth)
+			corner = sb.String()
+		}
 		m := mode()
 		fr.observe("S12_grammar_corner_case", corner, corner, m, healthyDisk(f), "")
 	}
